@@ -58,6 +58,28 @@ static bool seg_meets_rect(const Point64& a, const Point64& b, const RB& R) {
   return segs_touch(a, b, c0, c1) || segs_touch(a, b, c1, c2) || segs_touch(a, b, c2, c3) || segs_touch(a, b, c3, c0);
 }
 
+// every corner of the rectangle lies on the closed path (exact)
+static bool all_corners_on_path(const Path64& p, const RB& R) {
+  const Point64 cs[4] = { Point64(R.l, R.t), Point64(R.r, R.t), Point64(R.r, R.b), Point64(R.l, R.b) };
+  size_t n = p.size();
+  for (int k = 0; k < 4; ++k) {
+    bool on = false;
+    for (size_t i = 0; i < n && !on; ++i) on = on_segment(p[i], p[(i + 1) % n], cs[k]);
+    if (!on) return false;
+  }
+  return true;
+}
+// the result is one path whose vertices are exactly the four corners
+static bool result_is_rect(const Paths64& res, const RB& R) {
+  if (res.size() != 1 || res[0].size() != 4) return false;
+  int seen = 0;
+  for (auto& v : res[0]) {
+    if ((v.x != R.l && v.x != R.r) || (v.y != R.t && v.y != R.b)) return false;
+    seen |= 1 << ((v.x == R.r ? 1 : 0) + (v.y == R.b ? 2 : 0));
+  }
+  return seen == 15;
+}
+
 static ld dist_to_path(const Path64& p, const Point64& q) {
   ld best = std::numeric_limits<ld>::infinity();
   size_t n = p.size();
@@ -116,8 +138,8 @@ static bool judge_one(Ctx& ctx, const Case& c, const RB& R, const Path64& p, con
     if (ex > 0 || ey > 0) db = std::max(ex, ey);
     else db = std::min(std::min(v.x - R.l, R.r - v.x), std::min(v.y - R.t, R.b - v.y));
     if (db > 1) {
-      // classifier of the known defect: the vertex is exactly the origin (a default-constructed Point64) and some
-      // input edge passes within one unit of a rectangle corner
+      // classifier of the known defect: the vertex is exactly the origin (a default-constructed Point64) and some input
+      // edge passes within one unit of a rectangle corner, not through it, reaching >= 2^26 away (c08_corner.h)
       std::vector<std::string> tags = { (ex > 1 || ey > 1) ? "new_vertex_outside_rect" : "new_vertex_off_boundary" };
       if (v.x == 0 && v.y == 0 && c08::passes_near_corner(p, true, c08::RBox{ R.l, R.t, R.r, R.b })) tags = { "origin_vertex_from_corner_graze" };
       ctx.violation("C08.new_vertex_on_boundary", tags, c,
@@ -138,43 +160,25 @@ static bool judge_one(Ctx& ctx, const Case& c, const RB& R, const Path64& p, con
       return true;
     }
   }
-  // ---- entirely outside: vanishes (no edge meets the closed rectangle and the rectangle is not wound round)
+  // ---- entirely outside: vanishes. Judged when no edge comes within 2 units of the closed rectangle (margin: the
+  // library computes with rounded intersection points, a polygon passing a corner at a sub-unit distance may be treated
+  // as touching it) and the rectangle is not wound round.
   if (!any_meets) {
+    RB R2{ R.l - 2, R.t - 2, R.r + 2, R.b + 2 };
+    bool near = false;
+    for (size_t i = 0; i < n && !near; ++i) near = seg_meets_rect(p[i], p[(i + 1) % n], R2);
     int wc = winding1(p, Point64(R.l, R.t));
-    if (wc == 0) {
+    if (near) ctx.count("outside_within_2_units_not_judged");
+    else if (wc == 0) {
       ctx.count("outside_checked");
       if (!res.empty()) {
         ctx.violation("C08.outside_vanishes", { bounds_disjoint ? "bounds_disjoint" : "bounds_overlap" }, c,
-          who + "no edge meets the closed rectangle and the winding number over it is 0, but " + std::to_string(res.size()) + " paths were returned");
+          who + "no edge comes within 2 units of the rectangle and the winding number over it is 0, but " + std::to_string(res.size()) + " paths were returned");
         return true;
       }
     } else ctx.count("encloses_rect_without_touching");
   }
-
-  // ---- orientation (simple polygons). A simple polygon has winding s = +-1 inside and 0 outside, so a correct result
-  // has total signed area s * Area(p ∩ rect): its sign must be the input's. Judged on the total, not per path: on
-  // inputs whose edges graze a corner the library legitimately represents a notch that reaches a rectangle side as an
-  // outer path plus an oppositely oriented hole path (TidyEdges split; region and winding numbers are correct), so a
-  // per-path sign test would demand more than the property says. Result vertices may be one unit off the boundary,
-  // so a total that is a sliver inside that band (|area| <= 2 * perimeter) carries no information: skipped, counted.
-  if (simple && !res.empty()) {
-    i128 ra = 0; ld per = 0; bool opposite_path = false;
-    for (auto& rp : res) {
-      i128 a = area2(rp); ra += a;
-      if (a != 0 && ((a > 0) != (a2 > 0))) opposite_path = true;
-      for (size_t i = 0; i < rp.size(); ++i) per += sqrtl(to_ld(dist2(rp[i], rp[(i + 1) % rp.size()])));
-    }
-    if (fabsl(to_ld(ra)) * 0.5L <= 2.0L * per) ctx.count(ra == 0 ? "orientation_skipped_zero_area" : "orientation_skipped_sliver_within_tolerance_band");
-    else {
-      ctx.count("orientation_checked");
-      if (opposite_path) ctx.count("results_with_an_oppositely_oriented_path(hole_representation,not_a_violation)");
-      if ((ra > 0) != (a2 > 0)) {
-        ctx.violation("C08.orientation", { a2 > 0 ? "input_positive" : "input_negative" }, c,
-          who + "simple input polygon and the total signed area of the result have opposite signs");
-        return true;
-      }
-    }
-  }
+  for (auto& rp : res) if (rp.size() < 3) ctx.count("result_paths_with_fewer_than_3_points(degenerate,not_a_violation)");
 
   // ---- region: winding numbers at sample points
   Samples sp = base;
@@ -210,10 +214,39 @@ static bool judge_one(Ctx& ctx, const Case& c, const RB& R, const Path64& p, con
     }
     if (simple ? (wr != wi) : (((wr ^ wi) & 1) != 0)) {
       std::string kind = wi == 0 ? "covered_but_should_not" : (wr == 0 ? "not_covered" : "wrong_winding");
-      ctx.violation("C08.winding", { simple ? "simple" : "selfint_parity", kind }, c,
+      std::vector<std::string> tags = { simple ? "simple" : "selfint_parity", kind };
+      // classifier of the known defect: every corner of the rectangle lies on the input path (exactly), the rectangle is
+      // not covered by the polygon (even winding), and the result is the rectangle itself
+      if ((wi & 1) == 0 && all_corners_on_path(p, R) && result_is_rect(res, R)) tags = { "rect_returned_all_corners_on_path" };
+      ctx.violation("C08.winding", tags, c,
         who + "at " + pstr(q) + " input winding " + std::to_string(wi) + ", result winding " + std::to_string(wr) +
         (simple ? " (simple polygon)" : " (self-intersecting, no edge along a side: parity)") + ", dist to path " + ldstr(dist_to_path(p, q)));
       return true;
+    }
+  }
+
+  // ---- orientation (simple polygons). A simple polygon has winding s = +-1 inside and 0 outside, so a correct result
+  // has total signed area s * Area(p ∩ rect): its sign must be the input's. Judged on the total, not per path: on
+  // inputs whose edges graze a corner the library legitimately represents a notch that reaches a rectangle side as an
+  // outer path plus an oppositely oriented hole path (TidyEdges split; region and winding numbers are correct), so a
+  // per-path sign test would demand more than the property says. Result vertices may be one unit off the boundary,
+  // so a total that is a sliver inside that band (|area| <= 2 * perimeter) carries no information: skipped, counted.
+  if (simple && !res.empty()) {
+    i128 ra = 0; ld per = 0; bool opposite_path = false;
+    for (auto& rp : res) {
+      i128 a = area2(rp); ra += a;
+      if (a != 0 && ((a > 0) != (a2 > 0))) opposite_path = true;
+      for (size_t i = 0; i < rp.size(); ++i) per += sqrtl(to_ld(dist2(rp[i], rp[(i + 1) % rp.size()])));
+    }
+    if (fabsl(to_ld(ra)) * 0.5L <= 2.0L * per) ctx.count(ra == 0 ? "orientation_skipped_zero_area" : "orientation_skipped_sliver_within_tolerance_band");
+    else {
+      ctx.count("orientation_checked");
+      if (opposite_path) ctx.count("results_with_an_oppositely_oriented_path(hole_representation,not_a_violation)");
+      if ((ra > 0) != (a2 > 0)) {
+        ctx.violation("C08.orientation", { a2 > 0 ? "input_positive" : "input_negative" }, c,
+          who + "simple input polygon and the total signed area of the result have opposite signs");
+        return true;
+      }
     }
   }
   return false;
@@ -314,7 +347,7 @@ static void strip_consecutive(Path64& p) { strip_dups_closed(p); }
 
 struct LatScene { int G; int64_t s, ox, oy; int64_t x0, y0, x1, y1; };
 
-static Path64 lattice_poly(Rng& r, const LatScene& L, int kind, Ctx& ctx) {
+static Path64 lattice_poly(Rng& r, const LatScene& L, int kind) {
   const int G = L.G;
   Path64 p;
   auto rndpt = [&]() { return Point64(r.range(0, G), r.range(0, G)); };
@@ -329,12 +362,38 @@ static Path64 lattice_poly(Rng& r, const LatScene& L, int kind, Ctx& ctx) {
       angular_sort(p, r.range(0, 2 * G), r.range(0, 2 * G)); break; }
     case 2: { p = gen::rect_walk(r, G, r.irange(2, 10)); break; }
     case 3: { int n = r.irange(3, 12); for (int i = 0; i < n; ++i) p.push_back(r.chance(0.55) ? bndpt() : rndpt());
-      if (r.chance(0.6)) angular_sort(p, L.x0 + L.x1 + r.range(-1, 1), L.y0 + L.y1 + r.range(-1, 1)); break; }
+      if (r.chance(0.6)) angular_sort(p, L.x0 + L.x1 + r.range(-1, 1), L.y0 + L.y1 + r.range(-1, 1));
+      break; }
     case 4: { int n = r.irange(3, 4); for (int i = 0; i < n; ++i) p.push_back(r.chance(0.3) ? bndpt() : rndpt()); break; }
     case 5: { // encloses the rectangle: points outside the open rectangle sorted about its centre
       int n = r.irange(4, 12);
       for (int i = 0; i < 4 * n && (int)p.size() < n; ++i) { Point64 q = rndpt(); if (q.x > L.x0 && q.x < L.x1 && q.y > L.y0 && q.y < L.y1) continue; p.push_back(q); }
       angular_sort(p, L.x0 + L.x1, L.y0 + L.y1); break; }
+    case 7: { // U-notch exactly as wide as the rectangle: its walls run along two opposite sides, the rectangle lies in
+      // the notch (outside the polygon) and all four corners are on the path
+      bool tr = r.coin(), open_low = r.coin();
+      int64_t a0 = tr ? L.y0 : L.x0, a1 = tr ? L.y1 : L.x1, b0 = tr ? L.x0 : L.y0, b1 = tr ? L.x1 : L.y1;
+      if (a0 < 1 || a1 > G - 1) break;
+      int64_t A0 = r.range(0, a0 - 1), A1 = r.range(a1 + 1, G);
+      std::vector<std::pair<int64_t, int64_t>> q;
+      if (open_low) { if (b1 > G - 1) break;
+        int64_t top = r.range(0, b0), ny = r.range(b1, G - 1), bot = r.range(ny + 1, G);
+        q = { { A0, top }, { a0, top }, { a0, ny }, { a1, ny }, { a1, top }, { A1, top }, { A1, bot }, { A0, bot } }; }
+      else { if (b0 < 1) break;
+        int64_t bot = r.range(b1, G), ny = r.range(1, b0), top = r.range(0, ny - 1);
+        q = { { A0, bot }, { a0, bot }, { a0, ny }, { a1, ny }, { a1, bot }, { A1, bot }, { A1, top }, { A0, top } }; }
+      for (auto& e : q) p.push_back(tr ? Point64(e.second, e.first) : Point64(e.first, e.second));
+      break; }
+    case 8: { // the four corners are vertices, with detours outside the rectangle between them
+      Point64 cs[4] = { Point64(L.x0, L.y0), Point64(L.x1, L.y0), Point64(L.x1, L.y1), Point64(L.x0, L.y1) };
+      std::vector<int> ord = { 0, 1, 2, 3 };
+      if (r.chance(0.5)) r.shuffle(ord);
+      for (int k : ord) {
+        p.push_back(cs[k]);
+        int m = r.irange(0, 2);
+        for (int j = 0; j < m; ++j) for (int t = 0; t < 6; ++t) { Point64 v = rndpt(); if (v.x >= L.x0 && v.x <= L.x1 && v.y >= L.y0 && v.y <= L.y1) continue; p.push_back(v); break; }
+      }
+      break; }
     default: { // 6: lattice spiral round the rectangle centre
       int turns = r.irange(1, 4), per = r.irange(4, 6); int n = turns * per;
       double cx = 0.5 * (L.x0 + L.x1), cy = 0.5 * (L.y0 + L.y1), off = r.real(0, 6.28318);
@@ -347,7 +406,6 @@ static Path64 lattice_poly(Rng& r, const LatScene& L, int kind, Ctx& ctx) {
   }
   if (r.chance(0.9)) strip_consecutive(p);         // 10% keep repeated vertices (then never "simple")
   if (r.coin()) std::reverse(p.begin(), p.end());
-  (void)ctx;
   return p;
 }
 
@@ -372,9 +430,9 @@ static bool gen_lattice(Ctx& ctx, Case& c) {
     Path64 p;
     int kind = 0;
     for (int t = 0; t < 8 && p.size() < 3; ++t) {
-      static const int kinds[] = { 0, 0, 1, 1, 1, 2, 2, 3, 3, 3, 4, 4, 5, 6 };
-      kind = kinds[r.irange(0, 13)];
-      p = lattice_poly(r, L, kind, ctx);
+      static const int kinds[] = { 0, 0, 1, 1, 1, 2, 2, 3, 3, 3, 4, 4, 5, 6, 7, 8 };
+      kind = kinds[r.irange(0, 15)];
+      p = lattice_poly(r, L, kind);
     }
     if (p.size() < 3) continue;
     ctx.count("gen_lattice_kind_" + std::to_string(kind));
